@@ -54,12 +54,66 @@ def sig_of(bad):
     return "C12:pert-values-wrong(%s)" % ",".join(kinds)
 
 
+class _M(object):
+    pass
+
+
+def _late_append(n, links, rem0):
+    """a workflow grown task by task: each task is linked to its predecessors first and handed to the workflow afterwards"""
+    from pDESy.model.base_task import BaseTask
+    from pDESy.model.base_workflow import BaseWorkflow
+    from pDESy.model.base_project import BaseProject
+
+    tasks = [BaseTask(F.tname(i), ID=F.tname(i), default_work_amount=float(rem0[i])) for i in range(n)]
+    wf = BaseWorkflow([])
+    for j in range(n):
+        for i, jj, _k in links:
+            if jj == j:
+                tasks[j].append_input_task(tasks[i])
+        wf.append_child_task(tasks[j])
+    m = _M()
+    m.tasks = tasks
+    m.project = BaseProject(workflow=wf)
+    return m
+
+
+def _loaded(m):
+    """the project written to JSON and read into a new one: (model-like object with the loaded tasks in the same order)"""
+    import os
+    import tempfile
+    from pDESy.model.base_project import BaseProject
+
+    fd, path = tempfile.mkstemp(prefix="verif-c12-", suffix=".json")
+    os.close(fd)
+    try:
+        m.project.write_simple_json(path)
+        p2 = BaseProject()
+        p2.read_simple_json(path)
+    finally:
+        os.unlink(path)
+    m2 = _M()
+    byid = {x.ID: x for x in p2.workflow.task_list}
+    m2.tasks = [byid[x.ID] for x in m.tasks]
+    m2.project = p2
+    return m2
+
+
 def apply_history(n, links, rem0, hist, rev=False):
     """Replay a history on fresh real objects; returns (model, t, bad-list after the last update)."""
-    m = build_wf(n, links, rem0, rev)
-    wf = m.project.workflow
-    wf.initialize()
+    if rev == "late-append":
+        # no initialize(): the constructor set the remaining work, update_PERT_data is called directly
+        m = _late_append(n, links, rem0)
+        wf = m.project.workflow
+        wf.update_PERT_data(0)
+    else:
+        m = build_wf(n, links, rem0, rev if rev != "loaded" else False)
+        wf = m.project.workflow
+        wf.initialize()
     t = 0
+    if rev == "loaded" and not hist:
+        m = _loaded(m)
+        wf = m.project.workflow
+        wf.update_PERT_data(0)
     bad = compare(m.tasks, wf, n, links, t, "init") if not hist else []
     for k, op in enumerate(hist):
         if op[0] == "p":
@@ -67,6 +121,10 @@ def apply_history(n, links, rem0, hist, rev=False):
             x.remaining_work_amount = max(0.0, x.remaining_work_amount - 1.0)
         elif op[0] == "t":
             t += 1
+        if rev == "loaded" and k == len(hist) - 1:
+            # the last update is made on a copy that went through JSON (no initialize() in between)
+            m = _loaded(m)
+            wf = m.project.workflow
         wf.update_PERT_data(t)
         if k == len(hist) - 1:
             bad = compare(m.tasks, wf, n, links, t, "after")
@@ -227,6 +285,8 @@ def hist_items(tier):
                         out.append((n, links, rem0, 2, "order"))
                         out.append((n, links, rem0, 1, "auto-rate"))
                         out.append((n, links, rem0, 2, "prefinished"))
+                        out.append((n, links, rem0, 1, "loaded"))
+                        out.append((n, links, rem0, 1, "late-append"))
         for links in F.fs_dags(4):
             for rem0 in itertools.product((0, 1, 2), repeat=4):
                 out.append((4, links, rem0, 3 if sum(rem0) % 2 == 0 else 1, False))
@@ -240,6 +300,8 @@ def hist_items(tier):
                     out.append((n, links, rem0, 5 if n < 4 else 4, False))
                     if n >= 3 and links:
                         out.append((n, links, rem0, 3, True))
+                        out.append((n, links, rem0, 2, "loaded"))
+                        out.append((n, links, rem0, 2, "late-append"))
         for links in F.fs_dags(5):
             for rem0 in itertools.product((0, 1), repeat=5):
                 out.append((5, links, rem0, 3, False))
